@@ -27,6 +27,7 @@ META = {
         "0.3 s + W of the beginning of shutdown whatever the tasks do; (iv) a state with no enabled event in "
         "which listen() has not returned is legal only while a never-ending task runs and W is None. "
         "distinct_nontrivial = distinct terminal per-message logs."
+        " Fault-overlap family (mc/fault_overlap.py): message X suffers one fault out of {pre_execute/post_execute/post_save/on_error hook, sync or async ack, result backend} x {RuntimeError, CancelledError, TimeoutError}, backend failing once, body raise/CancelledError/timeout/no-result, malformed/unknown message, broker stream error, while the healthy message Y has suspension points before, inside and after its function and the stop request may arrive at any point; for (A,N,W) configurations so that X's processing can end, in whatever way, during the drain while Y is still running; all oracles apply unchanged."
     ),
     "assumptions": [
         "asyncio semantics as implemented by BaseEventLoop; timers fire exactly at their deadline on the virtual clock; untimed events happen at timer deadlines or at the harness clock ticks (0.15 s steps) of the tick scenarios",
@@ -211,6 +212,22 @@ def scenarios(tier: str) -> List[Dict[str, Any]]:
     for w_ in l2_words:
         for (a, p, n, w) in l2_cfg:
             out.append({"A": a, "P": p, "N": n, "W": w, "stream": "infinite", "stop": True, "msgs": _msgs(w_), "level": 2})
+    out += fault_family(tier)
+    return out
+
+
+def fault_family(tier: str) -> List[Dict[str, Any]]:
+    """One fault in message X (a hook, the ack or the result backend raising RuntimeError / CancelledError /
+    TimeoutError, body outcomes, junk, a broker stream error) while message Y is in flight and the stop
+    request (or the max-tasks recycle) arrives at any point - in particular so that X's processing ends,
+    in whatever way, during the drain while Y is still running (mc/fault_overlap.py). All of C05's oracles
+    apply unchanged: no return while an accepted message is in processing, prompt return afterwards."""
+    from mc import fault_overlap as fo
+
+    out = []
+    cfgs = [(3, None, None), (2, None, None), (3, 2, None)] if tier == "quick" else [(a, n, w) for a in (None, 2, 3) for n in (None, 2) for w in (None, 0.3)]
+    for a, n, w in cfgs:
+        out += fo.family(tier, a=a, n=n, w=w, orders=(True, False) if tier == "thorough" else (True,))
     return out
 
 
